@@ -72,6 +72,11 @@ pub trait Api1 {
 	async fn raw_kw(&self, r#type: String, r#ref: Option<u64>) -> RpcResult<Vec<Value>>;
 	#[method(name = "raw_pos")]
 	fn raw_pos(&self, r#type: u64, r#fn: Option<String>) -> RpcResult<Vec<Value>>;
+	// optional tails spelled with every path `Option` can be named by
+	#[method(name = "opt_paths")]
+	async fn opt_paths(&self, a: u64, b: core::option::Option<u64>, c: std::option::Option<String>, d: ::core::option::Option<bool>) -> RpcResult<Vec<Value>>;
+	#[method(name = "opt_paths_named", param_kind = map)]
+	async fn opt_paths_named(&self, a: u64, b: ::std::option::Option<u64>, c: core::option::Option<String>) -> RpcResult<Vec<Value>>;
 	#[subscription(name = "suba" => "subaNotif", unsubscribe = "unsuba", aliases = ["ns.suba_alias", "bare_suba"], unsubscribe_aliases = ["ns.unsuba_alias", "bare_unsuba"], item = Vec<Value>)]
 	async fn suba(&self, a: u64) -> SubscriptionResult;
 }
@@ -152,6 +157,16 @@ impl Api1Server for Impl {
 	async fn raw_kw(&self, r#type: String, r#ref: Option<u64>) -> RpcResult<Vec<Value>> {
 		let args = vec![js(&r#type), jo(&r#ref)];
 		self.0.lock().unwrap().push(("raw_kw".into(), args.clone()));
+		Ok(ret(&args))
+	}
+	async fn opt_paths(&self, a: u64, b: Option<u64>, c: Option<String>, d: Option<bool>) -> RpcResult<Vec<Value>> {
+		let args = vec![js(&a), jo(&b), jo(&c), jo(&d)];
+		self.0.lock().unwrap().push(("opt_paths".into(), args.clone()));
+		Ok(ret(&args))
+	}
+	async fn opt_paths_named(&self, a: u64, b: Option<u64>, c: Option<String>) -> RpcResult<Vec<Value>> {
+		let args = vec![js(&a), jo(&b), jo(&c)];
+		self.0.lock().unwrap().push(("opt_paths_named".into(), args.clone()));
 		Ok(ret(&args))
 	}
 	fn raw_pos(&self, r#type: u64, r#fn: Option<String>) -> RpcResult<Vec<Value>> {
@@ -264,6 +279,8 @@ fn methods() -> Vec<MD> {
 		MD { key: "subm", rpc_name: "ns.subm", aliases: &[], map: true, params: vec![pd("first", false, 2), pd("second_arg", true, 1)] },
 		MD { key: "raw_kw", rpc_name: "ns.raw_kw", aliases: &[], map: true, params: vec![pd(RAW_TYPE, false, 2), pd(RAW_REF, true, 1)] },
 		MD { key: "raw_pos", rpc_name: "ns.raw_pos", aliases: &[], map: false, params: vec![pd(RAW_TYPE, false, 1), pd("r#fn", true, 2)] },
+		MD { key: "opt_paths", rpc_name: "ns.opt_paths", aliases: &[], map: false, params: vec![pd("a", false, 1), pd("b", true, 1), pd("c", true, 2), pd("d", true, 3)] },
+		MD { key: "opt_paths_named", rpc_name: "ns.opt_paths_named", aliases: &[], map: true, params: vec![pd("a", false, 1), pd("b", true, 1), pd("c", true, 2)] },
 		MD { key: "suba", rpc_name: "ns.suba", aliases: &["ns.suba_alias", "bare_suba"], map: false, params: vec![pd("a", false, 1)] },
 	]
 }
@@ -454,6 +471,8 @@ async fn run(lines: Vec<String>, out: &mut Out) {
 						Err(e) => Err(e.to_string()),
 					},
 					"raw_kw" => Api1Client::raw_kw(&client, a!(0, String), o!(1, u64)).await.map_err(|e| e.to_string()),
+					"opt_paths" => Api1Client::opt_paths(&client, a!(0, u64), o!(1, u64), o!(2, String), o!(3, bool)).await.map_err(|e| e.to_string()),
+					"opt_paths_named" => Api1Client::opt_paths_named(&client, a!(0, u64), o!(1, u64), o!(2, String)).await.map_err(|e| e.to_string()),
 					"raw_pos" => Api1Client::raw_pos(&client, a!(0, u64), o!(1, String)).await.map_err(|e| e.to_string()),
 					"suba" => match Api1Client::suba(&client, a!(0, u64)).await {
 						Ok(mut s) => s.next().await.map(|r| r.map_err(|e| e.to_string())).unwrap_or(Err("stream ended".into())),
